@@ -41,13 +41,13 @@ def r02_1(prog, rep):
             rep.violated("R02.1", cod.qualname, cod.loc, f"Codec has no {'encode' if outer == 'encoder' else 'decode'}", detail=outer)
             continue
         want = ("call", ("attr", SELF, outer), (("call", ("attr", SELF, inner), (("param", par),), ()),), ())
-        rets = P.returns(P.paths_of(prog, m))
+        rets = P.returns(P.splice_helpers(prog, P.paths_of(prog, m)))
         rep.check(bool(rets) and all(r == want for _, r in rets), "R02.1", m.qualname, m.loc, f"returns self.{outer}(self.{inner}({par}))", f"{m.name} is not self.{outer}(self.{inner}({par})): {T.show(rets[0][1])[:120] if rets else 'no return'}")
     def bodies(qual, sigma):
         """The return terms of a side-effect-free one-path library function with its parameters substituted: a caller
         that spells the body out instead of calling it computes the same thing."""
         g = prog.function(qual)
-        gps = P.paths_of(prog, g)
+        gps = P.splice_helpers(prog, P.paths_of(prog, g))
         if any(ev[0] in ("setitem", "setattr", "delete") for pth in gps for ev in pth.events):
             return []
         return [P.substitute(rr, sigma) for _, rr in P.returns(gps)]
@@ -57,7 +57,7 @@ def r02_1(prog, rep):
     def verbatim_guard(g):
         return T.contains(g, lambda x: T.is_call_to(x, f"{C.INSP}.isbytestype"))
 
-    for p, r in P.returns(P.paths_of(prog, e)):
+    for p, r in P.returns(P.splice_helpers(prog, P.paths_of(prog, e))):
         if any(pol and verbatim_guard(g) for g, pol in p.guards()):
             # bytes-like types travel verbatim (same decision as codec(), judged by R02.5): the marshalled value itself
             okv = T.is_call_to(r, "typelib.marshals.api.marshal") and _arg(r, 0, "value") == ("param", "value") and _arg(r, 1, "t") == ("param", "t")
@@ -68,7 +68,7 @@ def r02_1(prog, rep):
         ok = ok and (T.is_call_to(inner, "typelib.marshals.api.marshal") and _arg(inner, 0, "value") == ("param", "value") and _arg(inner, 1, "t") == ("param", "t") or (len(m_bodies) == 1 and inner == m_bodies[0]))
         rep.check(ok, "R02.1", e.qualname, e.loc, "returns encoder(marshal(value, t=t))", "api.encode does not apply its `encoder` parameter to marshal(value, t=t): " + T.show(r)[:120])
     d = prog.function("typelib.api.decode")
-    for p, r in P.returns(P.paths_of(prog, d)):
+    for p, r in P.returns(P.splice_helpers(prog, P.paths_of(prog, d))):
         ok = T.is_call_to(r, "typelib.unmarshals.api.unmarshal") and _arg(r, 0, "t") == ("param", "t")
         v = _arg(r, 1, "value") if ok else None
         dec = ("call", ("param", "decoder"), (("param", "value"),), ())
@@ -86,10 +86,10 @@ def r02_5(prog, rep):
     """All entry points agree on which types travel verbatim: codec() carries bytes-like types without the JSON coder, so
     api.encode / api.decode must take the same decision (or delegate to codec())."""
     cf = prog.function("typelib.codecs.codec")
-    codec_has = any(T.is_call_to(g, f"{C.INSP}.isbytestype") for p in P.paths_of(prog, cf) for g, _ in p.guards())
+    codec_has = any(T.is_call_to(g, f"{C.INSP}.isbytestype") for p in P.splice_helpers(prog, P.paths_of(prog, cf)) for g, _ in p.guards())
     for q, role in (("typelib.api.encode", "encoder"), ("typelib.api.decode", "decoder")):
         f = prog.function(q)
-        ps = P.paths_of(prog, f)
+        ps = P.splice_helpers(prog, P.paths_of(prog, f))
         delegates = any(T.contains(tm, lambda x: T.is_call_to(x, "typelib.codecs.codec")) for p in ps for tm in p.all_terms())
         guarded = any(T.contains(tm, lambda x: T.is_call_to(x, f"{C.INSP}.isbytestype")) for p in ps for tm in p.all_terms())
         bypass = any(p.exit[0] == "return" and not T.contains(p.exit[1], lambda x: x[0] == "call" and x[1] == ("param", role)) for p in ps) or any(T.contains(p.exit[1], lambda x: x[0] == "ifexp" and T.contains(x[1], lambda y: T.is_call_to(y, f"{C.INSP}.isbytestype"))) for p in ps if p.exit[0] == "return")
@@ -103,7 +103,7 @@ def r02_4(prog, rep):
     params = [p for p in f.params]
     memo = prog.is_memoised(f)
     hand = []
-    for p in P.paths_of(prog, f):
+    for p in P.splice_helpers(prog, P.paths_of(prog, f)):
         for e in p.events:
             if e[0] == "setitem" and e[1][0] == "ref" and e[1][1].startswith("typelib."):
                 hand.append(e[2])
@@ -124,14 +124,18 @@ def r02_4(prog, rep):
 def r02_2(prog, rep):
     f = prog.function("typelib.codecs.codec")
     t = ("param", "t")
-    ps = P.paths_of(prog, f)
+    ps = P.splice_helpers(prog, P.paths_of(prog, f))
     want_m = ("boolop", "or", (("param", "marshaller"), None))
     for p, r in P.returns(ps):
         def about_t(x):
             """t itself or t seen through the library's own normalisers (unwrap / origin / resolve_supertype)."""
-            while x[0] == "call" and T.refname(x[1]) in (f"{C.INSP}.unwrap", f"{C.INSP}.origin", f"{C.INSP}.resolve_supertype") and len(x[2]) == 1:
-                x = x[2][0]
-            return x == t
+            while True:
+                if x[0] == "call" and T.refname(x[1]) in (f"{C.INSP}.unwrap", f"{C.INSP}.origin", f"{C.INSP}.resolve_supertype", "typelib.py.refs.evaluate", "typelib.py.refs.forwardref") and len(x[2]) >= 1:
+                    x = x[2][0]  # ... or the type a reference names (a reference to bytes is a bytes type)
+                elif x[0] == "ifexp":
+                    return about_t(x[2]) and about_t(x[3])
+                else:
+                    return x == t
 
         bytes_guard = [pol for g, pol in p.guards() if T.is_call_to(g, f"{C.INSP}.isbytestype") and len(g[2]) == 1 and about_t(g[2][0])]
         if r[0] == "sub" and r[1][0] == "ref" and r[1][1].startswith("typelib."):
@@ -159,6 +163,10 @@ def r02_2(prog, rep):
     guards_subject = [g[2][0] for pth in ps for g, _ in pth.guards() if T.is_call_to(g, f"{C.INSP}.isbytestype") and g[2]]
     raw = [x for x in guards_subject if x == t]
     rep.check(bool(guards_subject) and not raw, "R02.2", f.qualname, f.loc, "the verbatim-bytes decision is taken on the unwrapped / resolved type", "isbytestype() is applied to the annotation as passed: NewType('Blob', bytes), an alias of bytes or Final[bytes] get the JSON coder around the bytes routines — codec(Blob).encode(b'x') raises TypeError where codec(bytes) returns b'x'", detail="bytes-guard-subject")
+    # ... and a *reference* to a bytes type ("bytes", ForwardRef, a string-valued alias, Final["bytes"]) is one too: unwrap() hands
+    # a reference back as it is, so some path of the decision evaluates it
+    via_ref = [x for x in guards_subject if T.contains(x, lambda y: T.is_call_to(y, "typelib.py.refs.evaluate"))]
+    rep.check(bool(via_ref), "R02.2", f.qualname, f.loc, "a reference is evaluated before the verbatim-bytes decision", "the verbatim-bytes decision never evaluates a reference: for t = 'bytes', ForwardRef('bytes'), TypeAliasType('Blob', 'bytes') or Final['bytes'] the routines are the bytes routines while the coders are JSON -- encode raises TypeError, decode(b'\"abc\"') silently returns b'abc'", detail="bytes-guard-reference")
     del want_m
     cod = prog.cls("typelib.codecs.Codec")
     fields = [s.target.id for s in cod.node.body if isinstance(s, ast.AnnAssign) and isinstance(s.target, ast.Name)]
